@@ -82,6 +82,18 @@ func init() {
 		e.assert(args[0].(*smt.Term), strArg(e, args[1])+": "+normDigits(strArg(e, args[2])), e.posOfCaller())
 		return nil
 	}
+	zzapi["zzAnd"] = func(e *Engine, args []Value, fn *ssa.Function) Value {
+		return e.ctx.And(args[0].(*smt.Term), args[1].(*smt.Term))
+	}
+	zzapi["zzOr"] = func(e *Engine, args []Value, fn *ssa.Function) Value {
+		return e.ctx.Or(args[0].(*smt.Term), args[1].(*smt.Term))
+	}
+	zzapi["zzImplies"] = func(e *Engine, args []Value, fn *ssa.Function) Value {
+		return e.ctx.Or(e.ctx.Not(args[0].(*smt.Term)), args[1].(*smt.Term))
+	}
+	zzapi["zzIteInt"] = func(e *Engine, args []Value, fn *ssa.Function) Value {
+		return e.ctx.Ite(args[0].(*smt.Term), args[1].(*smt.Term), args[2].(*smt.Term))
+	}
 	zzapi["zzCover"] = func(e *Engine, args []Value, fn *ssa.Function) Value {
 		e.rep.AssertSites["cover:"+strArg(e, args[0])]++
 		return nil
